@@ -111,6 +111,14 @@ fn main() {
         std::fs::write(arg(&args, "--out").expect("--out"), serde_json::to_string_pretty(&out).unwrap()).expect("write result");
         std::process::exit(if vios.is_empty() { 0 } else { 1 });
     }
+    if cmd == "population" {
+        let sizes: Vec<usize> = arg(&args, "--sizes").expect("--sizes").split(',').map(|s| s.parse().unwrap()).collect();
+        let t0 = std::time::Instant::now();
+        let (vios, st) = hx::pop::run_pop(&sizes);
+        let out = serde_json::json!({"config": config_string(), "violations": vios, "stats": st, "wall_s": t0.elapsed().as_secs_f64()});
+        std::fs::write(arg(&args, "--out").expect("--out"), serde_json::to_string_pretty(&out).unwrap()).expect("write result");
+        std::process::exit(if vios.is_empty() { 0 } else { 1 });
+    }
     if cmd == "cycle" {
         let t0 = std::time::Instant::now();
         let (vios, st) = hx::cycle::run_cycle();
